@@ -261,3 +261,56 @@ package anchoring
 //@   ensures [coefficient_weighted_worst] forall j int :: 0 <= j && j < len(*criteria) && (*criteria)[j].Id in (*alternatives)[0].Alternative.Criteria ==>
 //@             exists b valueWithCoefficient :: b.value == result[0].Criteria[(*criteria)[j].Id] && b.coefficient > 0.0 && forall k int, w valueWithCoefficient :: 0 <= k && k < len(*alternatives) && atCriterion(w, (*alternatives)[k], (*criteria)[j])
 //@                ==> !(!notWorse((*criteria)[j], b, w) && notWorse((*criteria)[j], w, b))
+
+// ---- the new-criterion applier's importance weights (C19): shifted to at least 0.01 and normalised to sum 1
+//@ spec wtotal(cs []model.WeightedCriterion, d real, n int) real = n <= 0 ? 0.0 : wtotal(cs, d, n - 1) + (cs[n - 1].Weight + d)
+//@ spec shiftOf(w real) real = w < 0.01 ? 0.01 - w : 0.0
+
+//@ func normalizeCriteriaByTotalValue
+//@   property C19
+//@   panics_iff [no_criteria] len(criteria) == 0
+//@   assigns criteria
+//@   ensures [shifted_and_normalised] forall k int :: 0 <= k && k < len(criteria) ==> criteria[k].Criterion == old(criteria[k].Criterion)
+//@             && criteria[k].Weight == (old(criteria[k].Weight) + shiftOf(old(criteria[0].Weight))) / old(wtotal(criteria, shiftOf(criteria[0].Weight), len(criteria)))
+//@   loop 1 invariant [ctx] dif == shiftOf(old(criteria[0].Weight)) && total == old(wtotal(criteria, shiftOf(criteria[0].Weight), iter))
+//@   loop 1 invariant [shifted] forall k int :: 0 <= k && k < len(criteria) ==> criteria[k].Criterion == old(criteria[k].Criterion)
+//@             && criteria[k].Weight == (k < iter ? old(criteria[k].Weight) + dif : old(criteria[k].Weight))
+//@   loop 2 invariant [ctx] dif == shiftOf(old(criteria[0].Weight)) && total == old(wtotal(criteria, shiftOf(criteria[0].Weight), len(criteria)))
+//@   loop 2 invariant [normalised] forall k int :: 0 <= k && k < len(criteria) ==> criteria[k].Criterion == old(criteria[k].Criterion)
+//@             && criteria[k].Weight == (k < iter ? (old(criteria[k].Weight) + dif) / total : old(criteria[k].Weight) + dif)
+
+// gain and loss functions that are identically zero: the mean mapped difference is 0 and the inline applier adds range x 0
+//@ lemma [C19] zero_functions_leave_values_unchanged: forall v real, rng real, b criteria_bounding.CriteriaInRangeBounding
+//@   ensures  v + rng * 0.0 == v
+//@   ensures  criteria_bounding.boundedIn(b, v + rng * 0.0) - v == criteria_bounding.boundedIn(b, v) - v
+
+
+// ---- the bias itself: what is computed from what, and what is reported (C19)
+//@ spec evalName(f AnchoringEvaluator) string
+//@ ifacemethod AnchoringEvaluator.Identifier
+//@   ensures result == evalName(self)
+
+//@ func (*Anchoring).getAnchoringEvaluatorFunction
+//@   property C19 C20
+//@   ensures [first_with_that_name] exists k int :: 0 <= k && k < len(a.anchoringEvaluators) && result.fun == a.anchoringEvaluators[k] && evalName(result.fun) == params.Function
+//@             && forall j int :: 0 <= j && j < k ==> evalName(a.anchoringEvaluators[j]) != params.Function
+//@   loop 1 invariant [none_so_far] forall j int :: 0 <= j && j < iter ==> evalName(a.anchoringEvaluators[j]) != params.Function
+
+//@ func (*Anchoring).Apply
+//@   property C19 C09
+//@   requires model.distinctCriteria(current.Criteria)
+//@   returnhint [loss_and_gain_by_name] evalName(loss.fun) == parsedProps.Loss.Function && evalName(gain.fun) == parsedProps.Gain.Function
+//@   returnhint [all_alternatives_against_all_points] len(perReferencePointsDiffs) == len(allAlternatives) && forall ia int, ir int :: 0 <= ia && ia < len(allAlternatives) && 0 <= ir && ir < len(referencePoints) ==>
+//@             perReferencePointsDiffs[ia].Alternative == allAlternatives[ia]
+//@             && diffsOf(perReferencePointsDiffs[ia].ReferencePointsDifference[ir], allAlternatives[ia], referencePoints[ir], current.Criteria, criteriaScaling, loss, gain)
+//@   returnhint [over_considered_then_not_considered] len(allAlternatives) == len(current.ConsideredAlternatives) + len(current.NotConsideredAlternatives)
+//@             && forall k int :: 0 <= k && k < len(allAlternatives) ==> allAlternatives[k] == model.altAt(current.ConsideredAlternatives, current.NotConsideredAlternatives, k)
+//@   returnhint [report_is_what_was_used] typeis(result.Props, AnchoringResult) && result.Props.(AnchoringResult).ReferencePoints == referencePoints
+//@             && result.Props.(AnchoringResult).CriteriaScaling == criteriaScaling && result.Props.(AnchoringResult).PerReferencePointsDifferences == perReferencePointsDiffs
+//@             && result.Props.(AnchoringResult).ApplierResult == applierResult && result.DMP == newDmp
+//@   ensures [report_type] fresh(result) && typeis(result.Props, AnchoringResult)
+
+// parseFuncParams decodes into the object BlankParams() returned (an interface value whose dynamic type is not known
+// statically): assumed to write only that object, which no caller state refers to.
+//@ func parseFuncParams
+//@   trusted
